@@ -44,6 +44,12 @@ partial def decTerm : List String → Option (Term × List String)
 /-- `usize::MAX` on the 64-bit targets the harness runs on -/
 def USIZE_MAX : Nat := 18446744073709551615
 
+/-- does the term contain `var 0` (UD)? -/
+def hasUD01 : Term → Bool
+  | .var i => i == 0
+  | .abs b => hasUD01 b
+  | .app l r => hasUD01 l || hasUD01 r
+
 def orderOf : String → Option Order
   | "NOR" => some .NOR | "CBN" => some .CBN | "HSP" => some .HSP | "HNO" => some .HNO
   | "APP" => some .APP | "CBV" => some .CBV | "HAP" => some .HAP | _ => none
@@ -141,7 +147,9 @@ def exec (line : String) : String :=
   | "pred" :: rest =>
     (do
       let (t, _) ← decTerm rest
-      pure (b01 t.hasFreeVariables ++ " " ++ b01 t.isSupercombinator ++ " " ++ toString t.maxDepth)).getD "bad-op"
+      -- the supercombinator bit is only part of the answer for terms without UD (C18's quantifier)
+      let sc := if hasUD01 t then "-" else b01 t.isSupercombinator
+      pure (b01 t.hasFreeVariables ++ " " ++ sc ++ " " ++ toString t.maxDepth)).getD "bad-op"
   | "iso" :: rest =>
     (do
       let (t, r1) ← decTerm rest
